@@ -209,6 +209,7 @@ func sceneBindingHistory() {
 	h := service.NewHandler(k)
 	author, owner, prov := vf.Addr("author", 20), vf.Addr("owner", 20), vf.Addr("prov", 20)
 	balO := vf.Amount("balOwner")
+	vf.SetBalance(prov, vf.Amount("balProv")) // the provider has money of its own, which no binding message may touch
 	vf.SetBalance(owner, balO)
 	vf.SetModuleBalance(types.DepositAccName, sdk.ZeroInt())
 	vf.SetSupply(vf.Amount("supplyRest").Add(balO))
